@@ -39,6 +39,21 @@ Definition Password (u pw : string) : creds := {| cr_user := u; cr_pw := pw; cr_
    covers the rest of Validate): issuer and requested ACS URL ("" = none) *)
 Record authnreq := { rq_issuer : string; rq_acs : string }.
 
+(* the body of PUT /services/{id}: one EntityDescriptor, or an EntitiesDescriptor
+   aggregate given by its top-level entities in document order, each with the
+   flag "has an SPSSODescriptor" (nested aggregates are not searched) *)
+Inductive mdbody := MdSingle (md : spmeta) | MdAggregate (ents : list (spmeta * bool)).
+(* getSPMetadata: a single descriptor as it is; of an aggregate the FIRST entity
+   that has an SPSSODescriptor; none is a bad request *)
+Definition select_md (b : mdbody) : option spmeta :=
+  match b with
+  | MdSingle md => Some md
+  | MdAggregate ents => match filter (fun e : spmeta * bool => snd e) ents with (md, _) :: _ => Some md | [] => None end
+  end.
+
+(* bcrypt.GenerateFromPassword refuses more than 72 bytes *)
+Definition max_password_len : Z := 72.
+
 Inductive fault := NoFault | NotFound | IOErr.
 Definition faultplan := list fault.
 
@@ -117,7 +132,7 @@ Inductive op :=
 | DelUser (n : string)
 | GetUser (n : string)
 | ListKeys (cl : coll)
-| PutService (id : string) (md : spmeta)
+| PutService (id : string) (b : mdbody)
 | DelService (id : string)
 | PutShortcut (n : string) (sp : string)
 | DelShortcut (n : string)
@@ -246,7 +261,8 @@ Definition put_user (s : sstate) (n : string) (pw : option string) (pr : profile
     if ok then (set_users s (ainsert n {| u_name := n; u_hash := h; u_prof := pr |} (users s)), [rnocontent], fp2)
     else (s, [rerr 500], fp2) in
   match pw with
-  | Some p => store (hash p) fp
+  | Some p => if max_password_len <? slen p then (s, [rerr 500], fp)   (* ErrPasswordTooLong: nothing stored *)
+              else store (hash p) fp
   | None =>
       let '(g, fp1) := store_get (users s) n fp in
       match g with
@@ -281,7 +297,7 @@ Definition list_keys (s : sstate) (cl : coll) (fp : faultplan) : sstate * list r
   else (s, [rerr 500], fp1).
 
 (* service.go *)
-Definition put_service (s : sstate) (id : string) (md : spmeta) (fp : faultplan) : sstate * list reply * faultplan :=
+Definition put_service_md (s : sstate) (id : string) (md : spmeta) (fp : faultplan) : sstate * list reply * faultplan :=
   let '(g, fp1) := store_get (services s) id fp in         (* previous service: only ErrNotFound means "none" *)
   match g with
   | GErr => (s, [rerr 500], fp1)
@@ -295,6 +311,12 @@ Definition put_service (s : sstate) (id : string) (md : spmeta) (fp : faultplan)
                     end in
         (set_services s (ainsert id md (services s)) (ainsert (md_entity md) md reg1), [rnocontent], fp2)
       else (s, [rerr 500], fp2)
+  end.
+
+Definition put_service (s : sstate) (id : string) (b : mdbody) (fp : faultplan) : sstate * list reply * faultplan :=
+  match select_md b with
+  | Some md => put_service_md s id md fp
+  | None => (s, [rerr 400], fp)                            (* getSPMetadata failed: bad request, no store call *)
   end.
 
 Definition del_service (s : sstate) (id : string) (fp : faultplan) : sstate * list reply * faultplan :=
@@ -337,7 +359,7 @@ Definition step (s : sstate) (o : op) (fp : faultplan) : sstate * list reply * f
   | DelUser n => del_user s n fp
   | GetUser n => get_user s n fp
   | ListKeys cl => list_keys s cl fp
-  | PutService id md => put_service s id md fp
+  | PutService id b => put_service s id b fp
   | DelService id => del_service s id fp
   | PutShortcut n sp => put_shortcut s n sp fp
   | DelShortcut n => del_shortcut s n fp
@@ -470,7 +492,8 @@ Arguments put_user {H} hash empty_hash s n pw pr fp.
 Arguments del_user {H} s n fp.
 Arguments get_user {H} empty_hash s n fp.
 Arguments list_keys {H} s cl fp.
-Arguments put_service {H} s id md fp.
+Arguments put_service_md {H} s id md fp.
+Arguments put_service {H} s id b fp.
 Arguments del_service {H} s id fp.
 Arguments put_shortcut {H} s n sp fp.
 Arguments del_shortcut {H} s n fp.
@@ -489,9 +512,22 @@ Arguments registered_okb {H} s o a.
    p is Some p, the empty hash None.  (bcrypt is salted; only its behaviour
    under verify is compared, and a disclosed hash is reported by the harness
    as Some "...".) *)
+(* bcrypt keys the cipher with the password followed by a NUL byte, repeated to
+   72 bytes: two passwords verify alike exactly when these 72 bytes agree (bytes
+   beyond 72 are ignored by CompareHashAndPassword; "ab" and "ab\000ab" collide) *)
+Fixpoint bfill (n : nat) (k cur : string) : string :=
+  match n with
+  | O => EmptyString
+  | S m =>
+      match cur with
+      | String c r => String c (bfill m k r)
+      | EmptyString => match k with String c r => String c (bfill m k r) | EmptyString => EmptyString end
+      end
+  end.
+Definition norm0 (p : string) : string := let k := p +++ String (chr 0) EmptyString in bfill 72 k k.
 Definition H0 := option string.
-Definition hash0 (p : string) : H0 := Some p.
-Definition verify0 (h : H0) (p : string) : bool := match h with Some q => String.eqb q p | None => false end.
+Definition hash0 (p : string) : H0 := Some (norm0 p).
+Definition verify0 (h : H0) (p : string) : bool := match h with Some q => String.eqb q (norm0 p) | None => false end.
 Definition empty0 : H0 := None.
 
 (* what the harness observed for one operation: how many replies the handler
